@@ -59,7 +59,7 @@ def h_location_table(e, st, o, name, args, kwargs):
         s1 = s1._clone(ghost=g2)
         yield s1, NONE
         if name != "new_shb_packet":
-            yield st, RaiseV(ExcV("DuplicatedPacketException",
+            yield st.ghost_append("lt_duplicates", TupleV([StrV(name)] + list(args))), RaiseV(ExcV("DuplicatedPacketException",
                                   e.repo.class_by_qual("flexstack.geonet.exceptions:DuplicatedPacketException"), ()))
         return
     if name == "refresh_table":
